@@ -9,10 +9,10 @@ const char *verif_rule =
     "tape -> libcoap server with 1..3 observable resources (GET handler returns the resource's state counter; optionally NOTIFY_CON), 1..4 scripted observers, "
     "history of 3..30 operations from {register (same/new token, with/without query, CON/NON), change resource (1..3 times without I/O step in between), run I/O for 0..50 ms, "
     "advance time up to 400 s (crossing the session timeout), cancel with Observe=1 (same or other token), answer the next notification with RST, withhold ACKs, handler returns 4.04 "
-    "for the next notification of one observer, delete a resource}, per-datagram loss/duplication/delay. Oracle per registration entry (observer, resource, query): notification tokens = "
+    "for the next notification of one observer, delete a resource, declare an observer's session lost (coap_session_disconnected)}, per-datagram loss/duplication/delay. Oracle per registration entry (observer, resource, query): notification tokens = "
     "latest registration token; Observe values strictly increase (24-bit serial arithmetic) over distinct notifications in sending order, retransmissions byte-identical; among any 6 "
     "consecutive notifications one is CON; after a deregistration event has been delivered to the server (Observe=1, RST for the latest notification, COAP_OBS_MAX_FAIL+1 consecutive failed CON "
-    "notifications, error response sent, resource deleted => one NON 4.04) no new notification is first-transmitted; one notification per change burst and entry (re-registration replaces); "
+    "notifications, error response sent, session lost, resource deleted => one NON 4.04) no new notification is first-transmitted; one notification per change burst and entry (re-registration replaces); "
     "at quiescence the last notification sent to every live entry carries the latest state; the entry survives idle time beyond the session timeout. "
     "Notifications larger than one block (about 40 % of the cases, parameters from the end of the tape): COAP_BLOCK_USE_LIBCOAP with a maximum block size of 16/32/64, resources whose representation "
     "(coap_add_data_large_response) is 1+ .. 5 blocks long and differs in every byte range between states; observers that ignore the rest, fetch the next block only, or fetch all following blocks "
@@ -245,7 +245,19 @@ int verif_case(const uint8_t *tape, size_t tlen, Info *info) {
   for (unsigned k = 0; k < nops && !w.hit_cap; k++) {
     unsigned o = t.range(0, nobs - 1), r = t.range(0, nres - 1);
     char hb[96];
-    size_t op = k == 0 ? 0 : t.pick({5, 6, 4, 2, 2, 2, 1, 1, 1, 1, 3});
+    size_t op = k == 0 ? 0 : t.pick({5, 6, 4, 2, 2, 2, 1, 1, 1, 1, 3, 1});
+    if (op == 11) {  // session loss: the application tells libcoap that the observer's session has failed (as it does itself after a socket error)
+      coap_address_t ra;
+      obs[o].p->addr.to_coap(&ra);
+      coap_session_t *sess = coap_session_get_by_peer(ctx, &ra, 1);
+      if (sess) {
+        w.note("LOST o" + std::to_string(o));
+        coap_session_disconnected(sess, COAP_NACK_NOT_DELIVERABLE);
+      }
+      snprintf(hb, sizeof hb, "session-loss(o%u)%s", o, sess ? "" : "[no session]");
+      history.push_back(hb);
+      continue;
+    }
     if (op == 10) {  // composite: a series of changes with an I/O step after each one
       unsigned n = t.range(2, 14), gap = t.range(0, 30);
       for (unsigned i = 0; i < n && !cs.res[r].deleted; i++) {
@@ -404,6 +416,10 @@ int verif_case(const uint8_t *tape, size_t tlen, Info *info) {
         int r = e.note[8] - '0';
         deleted[r] = true;
         for (auto &en : entries) if (en.res == r && en.st != GONE) { set_gone(en, ti, e.t, "resource deleted"); en.allow_error = true; }
+      } else if (e.note.compare(0, 6, "LOST o") == 0) {
+        int o = e.note[6] - '0';
+        for (auto &en : entries) if (en.obs == o && en.st != GONE) set_gone(en, ti, e.t, "session lost");
+        info->label("session-loss-with-observations");
       } else if (e.note.compare(0, 6, "CHANGE") == 0) {
         int r = 0; unsigned st = 0;
         sscanf(e.note.c_str(), "CHANGE r%d state=%u", &r, &st);
